@@ -4,6 +4,7 @@ import (
 	"context"
 	"errors"
 	"fmt"
+	"io"
 	"runtime"
 	"strconv"
 	"strings"
@@ -11,6 +12,7 @@ import (
 	"time"
 
 	"github.com/cloudwego/eino/compose"
+	"github.com/cloudwego/eino/schema"
 
 	"verif/harness/lib"
 )
@@ -76,6 +78,11 @@ type BuildOpts struct {
 	// Appending one ChainBranch / Parallel / Lambda to several chains is ordinary use of the builder API: what a
 	// compiled object does must not depend on what else was built from the same parts.
 	Reuse int
+	// StreamConds: the branch conditions of Graphs and Chains are built with the stream constructors
+	// (NewStreamGraphBranch / NewStreamGraphMultiBranch / NewStreamChainBranch / NewStreamChainMultiBranch): the
+	// condition reads its whole input stream and decides on the size of the concatenated chunks (maps united key
+	// by key, recursively) — the same table as the value conditions. Workflow branches keep the value form.
+	StreamConds bool
 }
 
 type Built struct {
@@ -179,6 +186,81 @@ func nodeName(k uint64) string {
 		return compose.END
 	}
 	return KeyStr(k)
+}
+
+// streamSize reads a stream of map chunks to its end and returns the size of their concatenation.
+func streamSize(sr *schema.StreamReader[M]) (uint64, error) {
+	defer sr.Close()
+	var chunks []any
+	for {
+		c, err := sr.Recv()
+		if err == io.EOF {
+			break
+		}
+		if err != nil {
+			return 0, err
+		}
+		chunks = append(chunks, c)
+	}
+	switch len(chunks) {
+	case 0:
+		return 0, errors.New("graphgen: condition got an empty stream")
+	case 1:
+		return SizeOfGo(chunks[0]), nil
+	}
+	return SizeOfGo(ConcatGo(chunks)), nil
+}
+
+// ConcatGo concatenates chunks the way eino concatenates map chunks: maps are united key by key (recursively
+// for a key met several times), of anything else the last one is kept.
+func ConcatGo(vs []any) any {
+	var maps []M
+	for _, v := range vs {
+		m, ok := v.(M)
+		if !ok {
+			return vs[len(vs)-1]
+		}
+		maps = append(maps, m)
+	}
+	per := map[string][]any{}
+	for _, m := range maps {
+		for k, v := range m {
+			per[k] = append(per[k], v)
+		}
+	}
+	out := make(M, len(per))
+	for k, g := range per {
+		if len(g) == 1 {
+			out[k] = g[0]
+		} else {
+			out[k] = ConcatGo(g)
+		}
+	}
+	return out
+}
+
+// streamGraphBranch: graphBranch with the stream constructors.
+func streamGraphBranch(br *Branch) *compose.GraphBranch {
+	table := br.Table
+	if br.Single {
+		return compose.NewStreamGraphBranch(func(ctx context.Context, in *schema.StreamReader[M]) (string, error) {
+			sz, err := streamSize(in)
+			if err != nil {
+				return "", err
+			}
+			return nodeName(table[sz%uint64(len(table))][0]), nil
+		}, endsMap(br.Ends))
+	}
+	return compose.NewStreamGraphMultiBranch(func(ctx context.Context, in *schema.StreamReader[M]) (map[string]bool, error) {
+		sz, err := streamSize(in)
+		if err != nil {
+			return nil, err
+		}
+		if len(table) == 0 {
+			return map[string]bool{}, nil
+		}
+		return endsMap(table[sz%uint64(len(table))]), nil
+	}, endsMap(br.Ends))
 }
 
 // graphBranch builds the real branch object from the table.
@@ -293,7 +375,12 @@ func (b *builder) plainGraph(g *Graph, p []uint64) (*compose.Graph[M, M], error)
 		n := &g.Nodes[i]
 		for j := range n.Branches {
 			br := &n.Branches[j]
-			gb := b.shared("gbranch", pathOf(p, n.Key), j, func() any { return graphBranch(br) }).(*compose.GraphBranch)
+			gb := b.shared("gbranch", pathOf(p, n.Key), j, func() any {
+				if b.o.StreamConds {
+					return streamGraphBranch(br)
+				}
+				return graphBranch(br)
+			}).(*compose.GraphBranch)
 			if err := cg.AddBranch(nodeName(n.Key), gb); err != nil {
 				return nil, err
 			}
@@ -433,7 +520,29 @@ func (b *builder) chain(g *Graph, p []uint64) (*compose.Chain[M, M], error) {
 			cb := b.shared("cbranch", p, si, func() any {
 				table := st.Table
 				var cb *compose.ChainBranch
-				if st.Single {
+				if b.o.StreamConds && st.Single {
+					cb = compose.NewStreamChainBranch(func(ctx context.Context, in *schema.StreamReader[M]) (string, error) {
+						sz, err := streamSize(in)
+						if err != nil {
+							return "", err
+						}
+						return KeyStr(table[sz%uint64(len(table))][0]), nil
+					})
+				} else if b.o.StreamConds {
+					cb = compose.NewStreamChainMultiBranch(func(ctx context.Context, in *schema.StreamReader[M]) (map[string]bool, error) {
+						sz, err := streamSize(in)
+						if err != nil {
+							return nil, err
+						}
+						out := map[string]bool{}
+						if len(table) > 0 {
+							for _, k := range table[sz%uint64(len(table))] {
+								out[KeyStr(k)] = true
+							}
+						}
+						return out, nil
+					})
+				} else if st.Single {
 					cb = compose.NewChainBranch(func(ctx context.Context, in M) (string, error) {
 						return KeyStr(table[SizeOfGo(in)%uint64(len(table))][0]), nil
 					})
